@@ -407,7 +407,15 @@ def next_map_subchunk(map_, sm, invalid, chunksize):
     if sm < len(map_):
         start = map_[sm]
 
+    # a sub-chunk is mapped from the source window [first valid entry, last valid entry], so its
+    # valid entries must not decrease: end it where the map steps back (the map of the side that
+    # does not drive a join repeats a run of rows for every duplicate key on the driving side)
+    prev = start
     while sm < len(map_) and map_[sm] - start < chunksize:
+        if map_[sm] != invalid:
+            if map_[sm] < prev:
+                break
+            prev = map_[sm]
         sm += 1
 
     return sm
